@@ -99,7 +99,20 @@ class SimFS(FS):
         return buf
 
     def makedir(self, path, permissions=None, recreate=False):
-        raise NotImplementedError
+        p = self._p(path)
+        if p in self.disk.dirs:
+            if not recreate and p != "/":
+                raise fs.errors.DirectoryExists(path)
+            return self.opendir(path)
+        if p in self.disk.files:
+            raise fs.errors.DirectoryExists(path)
+        if posixpath.dirname(p) not in self.disk.dirs:
+            raise fs.errors.ResourceNotFound(path)
+        try:
+            self.disk.mkdir(p)
+        except OSError as e:
+            raise _fs_error(e, path)
+        return self.opendir(path)
 
     def remove(self, path):
         try:
@@ -117,7 +130,15 @@ class SimFS(FS):
             raise _fs_error(e, src_path)
 
     def removedir(self, path):
-        raise NotImplementedError
+        p = self._p(path)
+        if p == "/":
+            raise fs.errors.RemoveRootError(path)
+        if p in self.disk.dirs and self.disk.children(p):
+            raise fs.errors.DirectoryNotEmpty(path)
+        try:
+            self.disk.rmdir(p)
+        except OSError as e:
+            raise _fs_error(e, path)
 
     def setinfo(self, path, info):
         raise NotImplementedError
@@ -136,6 +157,13 @@ class _StatResult:
 SIM_ROOT = "/simv-root-7f3a"
 
 
+# The simulated working directory (a simulated-disk path) while a run hands the library
+# genuinely relative names; None otherwise.  A relative name is then resolved against it,
+# as the OS resolves one against the process's working directory (the empty name stays
+# with the real functions, which reject it the way the OS does).
+_SIM_CWD = None
+
+
 def _sim_path(path):
     """The simulated-disk path for a path under SIM_ROOT, else None."""
     try:
@@ -144,6 +172,8 @@ def _sim_path(path):
         return None
     if isinstance(p, bytes):
         p = p.decode("utf-8", "surrogateescape")
+    if _SIM_CWD is not None and p and not p.startswith("/"):
+        return _SIM_CWD.rstrip("/") + "/" + p
     if p == SIM_ROOT:
         return "/"
     if p.startswith(SIM_ROOT + "/"):
@@ -153,6 +183,7 @@ def _sim_path(path):
 
 _REAL = {
     "listdir": _real_os.listdir, "scandir": _real_os.scandir, "stat": _real_os.stat, "lstat": _real_os.lstat,
+    "mkdir": _real_os.mkdir, "rmdir": _real_os.rmdir,
     "remove": _real_os.remove, "unlink": _real_os.unlink, "rename": _real_os.rename,
     "replace": _real_os.replace, "readlink": _real_os.readlink, "io_open": io.open,
     "exists": posixpath.exists, "lexists": posixpath.lexists, "isfile": posixpath.isfile,
@@ -265,6 +296,9 @@ class _ShimOS:
     def __getattr__(self, name):
         return getattr(_real_os, name)
 
+    def getcwd(self):
+        return SIM_ROOT + (_SIM_CWD or "/").rstrip("/") if _SIM_CWD is not None else _real_os.getcwd()
+
     def listdir(self, path="."):
         sp = _sim_path(path)
         if sp is None:
@@ -327,6 +361,22 @@ class _ShimOS:
 
     def unlink(self, path, *a, **kw):
         return self.remove(path, *a, **kw)
+
+    def mkdir(self, path, mode=0o777, *a, **kw):
+        sp = _sim_path(path)
+        if sp is None:
+            return _REAL["mkdir"](path, mode, *a, **kw)
+        self._disk.mkdir(sp)
+
+    def rmdir(self, path, *a, **kw):
+        sp = _sim_path(path)
+        if sp is None:
+            return _REAL["rmdir"](path, *a, **kw)
+        self._disk.rmdir(sp)
+
+    def makedirs(self, name, mode=0o777, exist_ok=False):
+        # the real os.makedirs, which finds the routed mkdir / path.exists in the os module
+        return _real_os.makedirs(name, mode, exist_ok)
 
     def rename(self, src, dst, *a, **kw):
         s1, s2 = _sim_path(src), _sim_path(dst)
@@ -393,8 +443,9 @@ class NativeShim:
 
     _targets = None
 
-    def __init__(self, disk):
+    def __init__(self, disk, cwd=None):
         self.disk = disk
+        self.cwd = cwd
 
     @classmethod
     def targets(cls):
@@ -415,6 +466,8 @@ class NativeShim:
 
     def __enter__(self):
         import builtins
+        global _SIM_CWD
+        _SIM_CWD = self.cwd
         shim_io, shim_os = _ShimIO(self.disk), _ShimOS(self.disk)
         for mod, attr, real in self.targets():
             setattr(mod, attr, shim_os if attr == "os" else shim_io)
@@ -425,16 +478,20 @@ class NativeShim:
                 (_real_os, "lstat", shim_os.lstat), (_real_os, "remove", shim_os.remove),
                 (_real_os, "unlink", shim_os.unlink), (_real_os, "rename", shim_os.rename),
                 (_real_os, "replace", shim_os.replace), (_real_os, "readlink", shim_os.readlink),
+                (_real_os, "mkdir", shim_os.mkdir), (_real_os, "rmdir", shim_os.rmdir),
                 (io, "open", shim_io.open),
                 (builtins, "open", shim_io.open),
                 (posixpath, "exists", shim_os.path.exists), (posixpath, "lexists", shim_os.path.lexists),
                 (posixpath, "isfile", shim_os.path.isfile), (posixpath, "isdir", shim_os.path.isdir),
-                (posixpath, "getsize", shim_os.path.getsize)):
+                (posixpath, "getsize", shim_os.path.getsize)) + (
+                    ((_real_os, "getcwd", shim_os.getcwd),) if self.cwd is not None else ()):
             self._global.append((mod, name, getattr(mod, name)))
             setattr(mod, name, fn)
         return self
 
     def __exit__(self, *exc):
+        global _SIM_CWD
+        _SIM_CWD = None
         for mod, name, orig in reversed(self._global):
             setattr(mod, name, orig)
         for mod, attr, real in self.targets():
@@ -450,11 +507,17 @@ class Facade:
     kinds: simfs | native   - stubs over a SimDisk (faults possible)
            memoryfs | realos - the real things over a RealDisk (stub-fidelity slice)"""
 
-    def __init__(self, kind, disk):
+    def __init__(self, kind, disk, relative=False):
+        """relative=True: names that do not start with '/' are handed to the library as they
+        are - genuinely relative names, resolved against a working directory that is the
+        root of the world (simulated on the native stub, a real chdir on the real OS slice;
+        a PyFilesystem resolves them against its root anyway)."""
         if isinstance(disk, SimDisk):
             kind = {"realos": "native", "memoryfs": "simfs"}.get(kind, kind)
         self.kind = kind
         self.disk = disk
+        self.relative = bool(relative)
+        self._saved_cwd = None
         self.kw = {}
         self.root = ""
         self._shim = None
@@ -469,7 +532,7 @@ class Facade:
             self.fs = SimFS(self.disk)
             self.kw = {"filesystem": self.fs}
         elif self.kind == "native":
-            self._shim = NativeShim(self.disk)
+            self._shim = NativeShim(self.disk, cwd="/" if self.relative else None)
             self._shim.__enter__()
             self.root = SIM_ROOT
         elif self.kind == "realos":
@@ -478,6 +541,9 @@ class Facade:
             self._saved_os = mod.os
             mod.os = _ListingOS(self.disk)
             self.root = self.disk.root
+            if self.relative:
+                self._saved_cwd = _real_os.getcwd()
+                _real_os.chdir(self.root)
         elif self.kind == "memoryfs":
             self.fs = self.disk.mem
             self.kw = {"filesystem": self.fs}
@@ -490,6 +556,8 @@ class Facade:
             self._shim.__exit__(*exc)
         if self._saved_os is not None:
             self._mod.os = self._saved_os
+        if self._saved_cwd is not None:
+            _real_os.chdir(self._saved_cwd)
         if self.kind in ("realos", "memoryfs"):
             self.disk.cleanup()
         return False
@@ -497,6 +565,8 @@ class Facade:
     def p(self, path):
         """The path to hand to the library for a world path."""
         if not path:
+            return path
+        if self.relative and not path.startswith("/"):
             return path
         if self.root:
             return self.root + (path if path.startswith("/") else "/" + path)
@@ -648,14 +718,14 @@ class _ListingOS:
 
     def listdir(self, path):
         ents = sorted(_real_os.listdir(path))
-        p = posixpath.normpath(path)
+        p = posixpath.normpath(_real_os.path.abspath(path))
         if p.startswith(self._disk.root):
             p = p[len(self._disk.root):] or "/"
         return self._disk.permute(norm(p), ents)
 
     def scandir(self, path="."):
         ents = {e.name: e for e in _real_os.scandir(path)}
-        p = posixpath.normpath(_real_os.fspath(path))
+        p = posixpath.normpath(_real_os.path.abspath(_real_os.fspath(path)))
         if p.startswith(self._disk.root):
             p = p[len(self._disk.root):] or "/"
         return _ScanDir([ents[n] for n in self._disk.permute(norm(p), sorted(ents))])
